@@ -200,6 +200,17 @@ PROPS = {
         "assumptions": COMMON_ASSUMPTIONS,
         "explanation": "totality/invariant theorems + hostile-input correspondence",
     },
+    "C18": {
+        "level": "proof",
+        "lean_modules": ["AnyTLS.Props.C18"],
+        "groups": [{"group": "cert", "quick_cases": 150, "thorough_cases": 3000}],
+        "rule": "cert case = the real CertReloader over real files in a temp dir; key pairs A, B, C (valid) and E (expired) generated with rcgen; disk states by construction: valid pair, certificate alone replaced, key alone replaced, truncation prefixes of either file (12 sampled cut points quick; every cut of 0..900 bytes from the end thorough), first-n-bytes prefixes, garbage, empty, missing, chain files, expired with the expiry check on/off; ops: disk, reload, reload with the disk changing at each of the 3 sync points inside reload, in-memory TLS handshake (tokio-rustls over duplex) reporting the certificate presented, a held session exchanging data across reloads; "
+                "non-trivial = more than 3 ops; distinct by SHA-1 of the op lines",
+        "level_text": "kernel-checked theorems over the reload state machine with an abstract validator: a failed reload changes nothing (failed_reload_noop), a reload succeeds exactly when both reads are the same acceptable pair (reload_ok_iff) and then makes exactly that pair active, reported and counted once (ok_reload_swaps), at every moment of every history the active pair is the initial one or one validated as a pair and the reported information describes the active pair (active_always_validated), connections accepted earlier keep their pair whatever happens later (accepted_undisturbed); refutation of the pinned double read (pinned_info_not_active). Tied to the code by the cert differential run, where the real rustls / rustls-pemfile / x509-parser do the validation on disk states whose validity is known by construction, plus independent oracles (certificate presented = reported = last valid reload; counter; held session undisturbed)",
+        "level_note": "trusted: Lean kernel, harness+driver glue; certificate validation itself (rustls, rustls-pemfile, x509-parser) is the real code, an abstract parameter of the model; the four RwLock writes that publish a successful reload are not one atomic step (a reader between them can briefly see the new acceptor with the old info); the file watcher (notify) and its debounce are not modelled",
+        "assumptions": COMMON_ASSUMPTIONS,
+        "explanation": "reload state-machine theorems + cert correspondence",
+    },
 }
 
 NOT_YET = {}
